@@ -73,9 +73,12 @@ def _as_bool(v):
 def contains(it, container, x):
     c = it.ctx
     container = unflex(container)
-    if type(container).__name__ == 'SStr':
+    if type(container).__name__ == 'SStr' or (isinstance(container, str) and type(x).__name__ == 'SStr'):
         from . import sstr
-        return sstr.contains_char(container, x)
+        if type(x).__name__ == 'SStr' or (isinstance(x, str) and len(x) > 1 and not sstr.lift(container).is_literal()):
+            from .replace import occurs
+            return occurs(it, container, x)
+        return sstr.contains_char(sstr.lift(container), x)
     if isinstance(container, IdSet):
         rs = [compare_values(it, '==', x, v) for v in container.items]
         return Or(*rs) if rs else False
@@ -493,6 +496,9 @@ def _split_registered(it, s, sep, maxsplit):
 
 
 def _str_method_symargs(it, s, name, args, kwargs):
+    if name == 'find' and args and type(args[0]).__name__ == 'SStr':
+        from . import sstr
+        return sstr.lift(s).m_find(it, args[0])
     if name == 'replace' and any(type(a).__name__ == 'SStr' for a in args):
         from .replace import replace_all
         return replace_all(it, s, *args)
